@@ -107,6 +107,7 @@ fn main() {
         }
         "obs-claims" => {
             let mut rec = Recorder::create(&out);
+            std::panic::set_hook(Box::new(|_| {}));
             let (n, nu) = obs_claims::run(&mut rec, &arg(&args, "--cases").expect("--cases"), thorough, seed);
             println!("{}", serde_json::json!({"lines": rec.finish(), "direct": n, "through_unseal": nu}));
         }
